@@ -23,23 +23,24 @@ Section TyInd.
     end.
 End TyInd.
 
-Definition good (t : ty) : Prop :=
-  (table_impl MSend t = true -> std_auto MSend t = true) /\ (table_impl MSync t = true -> std_auto MSync t = true).
+Definition good_rf (rf : rawflags) (t : ty) : Prop :=
+  (impl_auto auto_rules rf MSend t = true -> ref_auto rf MSend t = true) /\
+  (impl_auto auto_rules rf MSync t = true -> ref_auto rf MSync t = true).
 
-(* one rule of the table is no weaker than the standard library *)
+(* one rule of the table is no weaker than the reference, whatever raw lock type the crate is instantiated with *)
 Definition rule_ok (r : autorule) : Prop :=
-  forall t, good t ->
+  forall rf t, good_rf rf t ->
     negb (r_negative r) &&
     forallb (fun b => match b with
-                      | BParam m' => table_impl m' t
-                      | BRaw m' => flag m' true true
-                      | BGuardMarker m' => flag m' false true
+                      | BParam m' => impl_auto auto_rules rf m' t
+                      | BRaw m' => flag m' (raw_send rf) (raw_sync rf)
+                      | BGuardMarker m' => flag m' (gm_send rf) (gm_sync rf)
                       | BOther _ => false
                       end) (r_bounds r) = true ->
-    std_auto (r_marker r) (TCon (r_ty r) t) = true.
+    ref_auto rf (r_marker r) (TCon (r_ty r) t) = true.
 
 Ltac rule_tac :=
-  intros t [Gs Gy] H; cbn in H |- *;
+  intros [a b c d] t [Gs Gy] H; destruct a, b, c, d; cbn in H |- *;
   repeat match goal with
          | H : _ && _ = true |- _ => apply andb_true_iff in H; destruct H
          | H : true = true |- _ => clear H
@@ -62,27 +63,33 @@ Proof.
   - intros H. destruct (IH H) as [A B]. split; [now right|exact B].
 Qed.
 
-Lemma con_good c t : good t -> good (TCon c t).
+Lemma con_good rf c t : good_rf rf t -> good_rf rf (TCon c t).
 Proof.
   intros G. pose proof all_rules_ok as OK. rewrite Forall_forall in OK.
-  split; intros H; unfold table_impl in H; cbn [impl_auto] in H.
+  split; intros H; cbn [impl_auto] in H.
   - destruct (find_rule auto_rules c MSend) as [r|] eqn:F; [|discriminate].
-    destruct (find_rule_in _ _ _ _ F) as [Hin [Hc Hm]]. specialize (OK r Hin t G H). now rewrite Hc, Hm in OK.
+    destruct (find_rule_in _ _ _ _ F) as [Hin [Hc Hm]]. specialize (OK r Hin rf t G H). now rewrite Hc, Hm in OK.
   - destruct (find_rule auto_rules c MSync) as [r|] eqn:F; [|discriminate].
-    destruct (find_rule_in _ _ _ _ F) as [Hin [Hc Hm]]. specialize (OK r Hin t G H). now rewrite Hc, Hm in OK.
+    destruct (find_rule_in _ _ _ _ F) as [Hin [Hc Hm]]. specialize (OK r Hin rf t G H). now rewrite Hc, Hm in OK.
 Qed.
 
-Theorem auto_at_least_std : forall t, good t.
+Theorem auto_at_least_ref : forall rf t, good_rf rf t.
 Proof.
-  induction t using ty_ind'.
+  intros rf. induction t using ty_ind'.
   - split; auto.
   - destruct IHt as [_ Gy]. split; exact Gy.
   - exact IHt.
-  - split; intros Hf; unfold table_impl in *; cbn [impl_auto std_auto] in *;
+  - split; intros Hf; cbn [impl_auto ref_auto] in *;
       rewrite forallb_forall in Hf; apply forallb_forall; intros x Hx;
       rewrite Forall_forall in H; destruct (H x Hx) as [Gs Gy]; [apply Gs|apply Gy]; now apply Hf.
   - now apply con_good.
 Qed.
+
+Definition good (t : ty) : Prop :=
+  (table_impl MSend t = true -> std_auto MSend t = true) /\ (table_impl MSync t = true -> std_auto MSync t = true).
+
+Theorem auto_at_least_std : forall t, good t.
+Proof. intros t. exact (auto_at_least_ref parking_lot_flags t). Qed.
 
 (* ---------------------------------------------------------------- E3: OwnedLockable types own their locks *)
 Lemma has_ol_in h : has_ol h = true -> exists b, In (h, b) ownedlockable_impls.
